@@ -55,6 +55,8 @@ THEOREMS = [
     "Optyx.Props.BuildTie.compileVec_step",
     "Optyx.Props.LPFastTie.fastBinop_eq",
     "Optyx.Props.LPFastTie.extractAll_eq",
+    "Optyx.Props.LPFastTie.extractLinearCoefficient_eq",
+    "Optyx.Props.LPFastTie.extractConstantTerm_eq",
     "Optyx.Props.LPFastTie.aligned_iff",
     "Optyx.Props.CompileEntryTie.compileExpression_eq",
     "Optyx.Props.CompileEntryTie.param_run",
